@@ -9,6 +9,7 @@ import MV.Driver.QCI
 import MV.Driver.InvCDF
 import MV.Driver.Fit
 import MV.Driver.KDE
+import MV.Driver.TTest
 open MV
 
 /-- ops whose handler models panics itself -/
@@ -27,6 +28,8 @@ def dispatchOp (ins outs : List J) : Verdict :=
   | .atom "inv" :: rest => InvCDF.handleInv rest outs
   | .atom "lls" :: rest => Fit.handleLLS rest outs
   | .atom "kde" :: rest => KDE.handleKDE rest outs
+  | .atom "tt" :: rest => TTest.handleTT rest outs
+  | .atom "meanci" :: rest => TTest.handleMeanCI rest outs
   | .atom "bw" :: rest => KDE.handleBW rest outs
   | .atom "preg" :: rest => Fit.handlePReg rest outs
   | .atom "loess" :: rest => Fit.handleLoess rest outs
